@@ -241,6 +241,7 @@ Definition test_holds (t : pack_test) (v : value) : bool :=
   | TestNdarrayOrJax, (VArr _ | VJax _ | VOther _ | VObj _ _) => true
   | TestNpGeneric, (VNpScalar _ _ | VNpOther _) => true
   | TestComplex, VComplex _ _ => true
+  | TestComplex, VNpScalar C128 _ => true      (* np.complex128 is ALSO a subclass of python complex *)
   | _, _ => false
   end.
 
@@ -257,6 +258,7 @@ Definition apply_enc (e : pack_enc) (v : value) : option wire :=
   | EncNdarrayOfAsarray, VNpScalar d bits => ndarray_to_bytes_in (InArr (mk_carr d [] [bits]))
   | EncNdarrayOfAsarray, VNpOther o => ndarray_to_bytes_in (InOther o)
   | EncComplexTuple, VComplex re im => Some (WArr [WF64 re; WF64 im])
+  | EncComplexTuple, VNpScalar C128 bits => Some (WArr [WF64 (bits mod 2 ^ 64); WF64 (bits / 2 ^ 64)])   (* (x.real, x.imag) *)
   | _, _ => None
   end.
 
@@ -404,6 +406,18 @@ Fixpoint wf (v : value) : bool :=
   | _ => true
   end.
 
+(* the weaker invariant the round-trip theorems actually need: the LOGICAL elements fit the dtype
+   (implied by wf; preserved by canon, which wf's stride conditions are not needed for) *)
+Fixpoint wfl (v : value) : bool :=
+  match v with
+  | VDict _ vs | VList vs | VTuple vs => forallb wfl vs
+  | VArr a | VJax a => forallb (in_range (a_dt a)) (logical a)
+  | VOther o | VNpOther o => match dtype_of_name (o_name o) with None => true | Some _ => false end
+  | VObj shape elems => Nat.eqb (length elems) (prod shape)
+  | VNpScalar d bits => in_range d bits
+  | _ => true
+  end.
+
 (* ---------- boolean equality for the correspondence ---------- *)
 Definition lbeq {A} (eqb : A -> A -> bool) : list A -> list A -> bool :=
   fix go l1 l2 := match l1, l2 with
@@ -460,10 +474,28 @@ Definition num_examples (vs : list value) : option nat :=
 
 Record db_row := mkRow { r_id : list Z; r_blob : wire; r_n : nat }.
 
+(* INSERT INTO federated_data VALUES (?, ?, ?): the k-th element of the tuple built by
+   prepare_parameters lands in the k-th column of CREATE TABLE (both orders are translated) *)
+Inductive cell := CId (i : list Z) | CBlob (w : wire) | CCount (n : nat).
+Definition tuple_cell (id : list Z) (w : wire) (n : nat) (c : db_col) : cell :=
+  match c with ColId => CId id | ColData => CBlob w | ColCount => CCount n end.
+Definition col_eqb (a b : db_col) : bool :=
+  match a, b with ColId, ColId | ColData, ColData | ColCount, ColCount => true | _, _ => false end.
+Definition stored_row (id : list Z) (w : wire) (n : nat) : list (db_col * cell) :=
+  combine table_columns (map (tuple_cell id w n) builder_tuple).
+Definition col_of (row : list (db_col * cell)) (c : db_col) : option cell :=
+  option_map snd (find (fun e => col_eqb (fst e) c) row).
+(* what the reader's SELECT client_id / data / num_examples see in that row *)
+Definition read_row (row : list (db_col * cell)) : option db_row :=
+  match col_of row ColId, col_of row ColData, col_of row ColCount with
+  | Some (CId i), Some (CBlob w), Some (CCount n) => Some (mkRow i w n)
+  | _, _, _ => None            (* a column holds a value of another kind *)
+  end.
+
 Definition build_row (c : list Z * (list (list Z) * list value)) : option db_row :=
   let '(id, (ks, vs)) := c in
   match num_examples vs, encode (VDict ks vs) with
-  | Some n, Some w => Some (mkRow id w n)
+  | Some n, Some w => read_row (stored_row id w n)
   | _, _ => None
   end.
 
